@@ -512,13 +512,9 @@ def _observe(t, target, out):
             exc_class(r.exception) if r.exception is not None else "?")
         if t.get("subprocess"):
             p = subprocess.run([sys.executable, "-m", "geff._cli", "validate", target], capture_output=True, text=True)
-            names = re.findall(r"^[│ ]*((?:\w+\.)*\w*(?:Error|Exception))\b", p.stderr, re.M)
-            last = names[-1].split(".")[-1] if names else "?"
-            if last in ("GroupNotFoundError", "NodeNotFoundError"):
-                last = "ValueError+FileNotFoundError"
-            if last == "ValidationError":
-                last = "ValueError"
-            out["cli_sub"] = "ok" if p.returncode == 0 else f"exit{p.returncode}:{last}"
+            # the exit status is what the property speaks about; the exception class behind it is observed
+            # in-process (CliRunner) — text scraped from a traceback on stderr is not reliable
+            out["cli_sub"] = "ok" if p.returncode == 0 else f"exit{p.returncode}"
 
 
 def impl_obs(t):
@@ -945,7 +941,7 @@ def classify(label, t, im, want, why=None):
         if (got == "ok") != (want == "ok"):
             out.append((f"C04:cli:exit-status:{why or features(t)}",
                         f"`geff validate` gave {got}, validation outcome should be {want} ({short})"))
-        elif want != "ok" and not got.endswith(":" + want):
+        elif want != "ok" and ep == "cli" and not got.endswith(":" + want):
             out.append((f"C04:cli:wrong-error-class:{why}", f"`geff validate` failed with {got}, expected {want} ({short})"))
     return out
 
